@@ -384,7 +384,7 @@ def execAbs (sortFn : List Ev → List Ev) (n : Nat) (buf : List Ev) (bad0 : Nat
   | some first =>
     let buf' := buf.take first ++ sortFn (buf.drop first)
     if chainOk 0 (sortFn (buf.drop first)) then (Status.ok, buf', some (first, buf.length))
-    else (Status.dieRingNotSorted, buf', some (first, buf.length))
+    else (Status.errRingNotSorted, buf', some (first, buf.length))
 
 theorem firstOf_lt {n buf m first} (hk : 1 ≤ buf.length) (h : firstOf n buf m = some first) :
     first < buf.length ∧ buf.length < first + n := by
